@@ -386,9 +386,14 @@ func runConnInner(args []string) string {
 	}
 	if strings.HasPrefix(args[3], "h:") {
 		// set through an odd spelling: net/http canonicalises the key
-		req.Header.Set("last-event-ID", string(unhx(args[3][2:])))
+		req.Header.Set("last-event-ID", string(unhx(strings.SplitN(args[3][2:], "+", 2)[0])))
 	}
 	c := client.NewConnection(req)
+	if i := strings.Index(args[3], "+b:"); i >= 0 {
+		// Connection.Buffer with a caller-provided buffer: the same backing array serves every (re)connection
+		f := strings.Split(args[3][i+3:], ":")
+		c.Buffer(make([]byte, 0, atoi(f[0])), atoi(f[1]))
+	}
 	c.SubscribeToAll(func(e sse.Event) {
 		mu.Lock()
 		defer mu.Unlock()
